@@ -286,3 +286,45 @@ pub fn write_fuzz_seeds(dir: &PathBuf) {
     }
     println!("fuzz seeds written under {}", dir.display());
 }
+
+/// Inputs for the targeted Miri stage of C08 (generated natively; Miri only parses them).
+pub fn write_c08t_inputs(seed: u64, count: u64, file: &PathBuf) {
+    use crate::gen::{mix, Limits};
+    use crate::oracle::Fmt;
+    let fams: [&str; 8] = ["G-N", "G-N", "G-N", "G-P", "G-M", "G-G-f32", "G-G-f64", "big-bigint"];
+    let lim = Limits { long: 800, huge: 800 };
+    let mut out = String::new();
+    for i in 0..count {
+        let mut bytes = Vec::with_capacity(96);
+        let mut s = mix(seed ^ (i + 1).wrapping_mul(0x9e37_79b9_7f4a_7c15));
+        for _ in 0..12 {
+            s = mix(s);
+            bytes.extend(s.to_le_bytes());
+        }
+        let mut r = crate::fuzzglue::recipe_from_bytes(&bytes);
+        let fam = fams[(i % 8) as usize];
+        let (fmt, c) = match fam {
+            "G-N" => {
+                r.k[1] = 5 + (r.k[1] % 3); // 6..8 zero limbs
+                (Fmt::F64, crate::gen::g_n(&r))
+            }
+            "G-P" => (Fmt::F64, crate::gen::g_p(Fmt::F64, &r)),
+            "G-M" => (Fmt::F64, crate::gen::g_m(Fmt::F64, &r)),
+            "G-G-f32" => {
+                r.sel[3] = 0x4000; // deciding digit at MAX_DIGITS-2 .. +3
+                (Fmt::F32, crate::gen::g_g(Fmt::F32, &r, lim))
+            }
+            "G-G-f64" => {
+                r.sel[3] = 0x4000;
+                (Fmt::F64, crate::gen::g_g(Fmt::F64, &r, lim))
+            }
+            _ => {
+                r.sel[0] = 0xE800;
+                (Fmt::F64, crate::props::c04::case_of(&r, lim))
+            }
+        };
+        let show = |d: &[u8]| if d.is_empty() { "-".to_string() } else { String::from_utf8_lossy(d).to_string() };
+        out.push_str(&format!("{} {} {} {} {}\n", fmt.name(), show(&c.int), show(&c.frac), c.exp, fam));
+    }
+    std::fs::write(file, out).expect("write c08t inputs");
+}
